@@ -1,6 +1,159 @@
-"""Seeded / benign variants of the tree (thorough tier) -- filled in per rule."""
+"""Thorough tier: the checker is tested both ways on scratch copies of the tree (DESIGN 8).
+
+* seeded changes kept under /verif/seeded/<name>/patch.diff (written by independent agents, confirmed to
+  break the property while the test suite passes) -- the check must report each of them;
+* built-in mutants (small source edits computed here) -- the check must report each of them;
+* benign variants (behaviour-preserving rewrites) -- the check must stay silent.
+
+Scratch copies live under $TMPDIR/pstatic-* and are removed when done.  The copies are only *analysed*
+(check.py --root <copy>), never imported.  A variant whose anchor text is no longer present in the tree is
+skipped (stale), it never raises an alarm; a missed mutant or a noisy benign variant is ANALYSIS-ERROR
+(exit 2): the checker is broken, not the repository.
+"""
 from __future__ import annotations
+
+import json
+import os
+import shutil
+import subprocess
+import sys
+import tempfile
+import time
+from concurrent.futures import ThreadPoolExecutor
+from typing import Optional
+
+VERIF = os.path.dirname(os.path.dirname(os.path.abspath(__file__)))
+REPO = os.environ.get("PSTATIC_REPO", "/repo")
+COPY = ["pulser-core/pulser", "pulser-simulation/pulser_simulation", "docs/source/conventions.md"]
+
+
+def _table() -> dict:
+    with open(os.path.join(VERIF, "tables", "selftest_variants.json")) as f:
+        return json.load(f)
+
+
+def _make_copy(base: str) -> str:
+    d = tempfile.mkdtemp(prefix="pstatic-", dir=base)
+    for rel in COPY:
+        src = os.path.join(REPO, rel)
+        dst = os.path.join(d, rel)
+        os.makedirs(os.path.dirname(dst), exist_ok=True)
+        if os.path.isdir(src):
+            shutil.copytree(src, dst, ignore=shutil.ignore_patterns("__pycache__", "*.pyc"))
+        elif os.path.exists(src):
+            shutil.copy(src, dst)
+    return d
+
+
+def _apply_text(root: str, v: dict) -> Optional[str]:
+    """Apply a text edit {file, old, new[, count]}; returns None if applied, else the reason it is stale."""
+    edits = v["edits"] if "edits" in v else [v]
+    for e in edits:
+        p = os.path.join(root, e["file"])
+        if not os.path.exists(p):
+            return f"file {e['file']} missing"
+        s = open(p, encoding="utf-8").read()
+        if s.count(e["old"]) != e.get("count", 1):
+            return f"anchor text occurs {s.count(e['old'])}x in {e['file']} (expected {e.get('count', 1)})"
+        s = s.replace(e["old"], e["new"])
+        open(p, "w", encoding="utf-8").write(s)
+    return None
+
+
+def _apply_patch(root: str, patch: str) -> Optional[str]:
+    p = subprocess.run(["git", "apply", "--whitespace=nowarn", patch], cwd=root, capture_output=True, text=True)
+    if p.returncode != 0:
+        return "patch does not apply: " + (p.stderr.strip().splitlines() or ["?"])[-1][:120]
+    return None
+
+
+def _run_check(prop: str, root: str) -> tuple[int, list[str]]:
+    env = dict(os.environ, PSTATIC_EVIDENCE_DIR=os.path.join(root, "_evidence"), PSTATIC_REPO=root)
+    p = subprocess.run([sys.executable, os.path.join(VERIF, "check.py"), prop, "--tier", "quick", "--root", root], cwd=VERIF, env=env, capture_output=True, text=True)
+    lines = [l.strip() for l in p.stdout.splitlines() if l.startswith(("  rule=", "ANALYSIS-ERROR"))]
+    return p.returncode, lines
+
+
+def _one(prop: str, base: str, v: dict) -> dict:
+    root = _make_copy(base)
+    try:
+        if v["kind"] == "seeded":
+            stale = _apply_patch(root, v["patch"])
+        else:
+            stale = _apply_text(root, v)
+        if stale:
+            return {"name": v["name"], "kind": v["kind"], "status": "stale", "why": stale}
+        rc, lines = _run_check(prop, root)
+        if v["kind"] == "benign":
+            ok = rc == 0
+        else:
+            ok = rc == 1 and (not v.get("expect") or any(v["expect"] in l for l in lines))
+        return {"name": v["name"], "kind": v["kind"], "status": "ok" if ok else "FAILED", "exit": rc, "reports": lines[:4], "expect": v.get("expect", "")}
+    finally:
+        shutil.rmtree(root, ignore_errors=True)
+
+
+def variants_for(prop: str) -> list[dict]:
+    out: list[dict] = []
+    sd = os.path.join(VERIF, "seeded")
+    if os.path.isdir(sd):
+        for name in sorted(os.listdir(sd)):
+            mp = os.path.join(sd, name, "meta.json")
+            pp = os.path.join(sd, name, "patch.diff")
+            if not (os.path.exists(mp) and os.path.exists(pp)):
+                continue
+            meta = json.load(open(mp))
+            if prop in meta.get("reported_by", {}):
+                out.append({"name": "seeded/" + name, "kind": "seeded", "patch": pp})
+    t = _table()
+    for v in t.get("mutants", {}).get(prop, []):
+        out.append(dict(v, kind="mutant"))
+    for v in t.get("benign", {}).get(prop, []):
+        out.append(dict(v, kind="benign"))
+    return out
 
 
 def run_for(prop: str, tier: str) -> int:
+    t0 = time.time()
+    vs = variants_for(prop)
+    base = tempfile.gettempdir()
+    results = []
+    with ThreadPoolExecutor(max_workers=int(os.environ.get("PSTATIC_JOBS", "12"))) as ex:
+        for r in ex.map(lambda v: _one(prop, base, v), vs):
+            results.append(r)
+    failed = [r for r in results if r["status"] == "FAILED"]
+    stale = [r for r in results if r["status"] == "stale"]
+    ok = [r for r in results if r["status"] == "ok"]
+    # extend the evidence written by the quick part of this run
+    evp = os.path.join(os.environ.get("PSTATIC_EVIDENCE_DIR") or os.path.join(VERIF, "evidence"), f"{prop}.json")
+    try:
+        ev = json.load(open(evp))
+        ev["tier"] = "thorough"
+        cov = ev["coverage"]
+        cov["selftest"] = {
+            "variants": len(results), "reported_as_expected": len([r for r in ok if r["kind"] != "benign"]), "benign_silent": len([r for r in ok if r["kind"] == "benign"]),
+            "stale_skipped": [r["name"] + ": " + r["why"] for r in stale], "failed": failed,
+            "results": [{k: r.get(k) for k in ("name", "kind", "status", "reports")} for r in results],
+            "rule": "each variant is a scratch copy of the analysed packages with one change applied (seeded patch / built-in mutant / benign rewrite) analysed with check.py --root; mutants must be reported, benign rewrites must not",
+        }
+        cov["evaluations"] = cov.get("evaluations", 0) + len(results)
+        cov["distinct_nontrivial"] = cov.get("distinct_nontrivial", 0) + len(ok)
+        cov["explanation"] += " THOROUGH: additionally the checker was run on %d changed scratch copies of the tree (%d seeded/built-in mutants reported as expected, %d benign rewrites silent, %d stale skipped)." % (len(results), cov["selftest"]["reported_as_expected"], cov["selftest"]["benign_silent"], len(stale))
+        ev["wall_s"] = round(ev.get("wall_s", 0) + time.time() - t0, 3)
+        json.dump(ev, open(evp, "w"), indent=1)
+    except Exception as e:  # pragma: no cover
+        print(f"ANALYSIS-ERROR property={prop} cannot extend evidence: {e}")
+        return 2
+    for r in stale:
+        print(f"selftest: skipped stale variant {r['name']} ({r['why']})")
+    if failed:
+        for r in failed:
+            what = "benign variant raised an alarm" if r["kind"] == "benign" else "mutant was not reported"
+            print(f"ANALYSIS-ERROR property={prop} selftest-miss {r['name']}: {what} (exit {r.get('exit')}, expected '{r.get('expect', '')}', got {r.get('reports')})")
+        return 2
+    n_mut = len([r for r in ok if r["kind"] != "benign"])
+    if n_mut < _table().get("floors", {}).get(prop, 1):
+        print(f"ANALYSIS-ERROR property={prop} selftest: only {n_mut} applicable mutants (floor {_table().get('floors', {}).get(prop, 1)})")
+        return 2
+    print(f"OK property={prop} tier=thorough selftest: {n_mut} mutants reported, {len([r for r in ok if r['kind'] == 'benign'])} benign silent, {len(stale)} stale skipped, wall={round(time.time() - t0, 1)}s")
     return 0
